@@ -47,7 +47,9 @@ func (x *exec) histC12() {
 				x.res.Stats.Faults["interleave"]++
 			}
 			if st.Op == "select" {
-				hs = append(hs, &handle{it: ex.Select(x.nav(d, st.C)), e: ei, d: d, c: st.C, api: "select", want: want})
+				if it := selectIter(ex, x.nav(d, st.C)); it != nil {
+					hs = append(hs, &handle{it: it, e: ei, d: d, c: st.C, api: "select", want: want})
+				}
 				x.tracef("step %d select e%d d%d c%d", i, ei, d, st.C)
 				continue
 			}
@@ -243,8 +245,8 @@ func (x *exec) relations(step, ei, d, c int) {
 	es := x.s.Exprs[ei]
 	text := es.Text
 	sel := x.solo(text, d, c, "select", 0)
-	if sel.Aborted() {
-		return
+	if sel.Aborted() || sel.Kind != "nodes" {
+		return // no sequence at all (Select itself panicked): nothing for C12 to relate
 	}
 	x.res.Stats.Ops++
 	x.res.Stats.OpsCompared++
@@ -298,7 +300,7 @@ func (x *exec) relations(step, ei, d, c int) {
 	// the same through a long-lived compiled expression (history clause)
 	if ex := x.shared[ei]; ex != nil {
 		e := x.begin(budgetFor(sel), 0)
-		got := drain(ex.Select(x.nav(d, c)), 0)
+		got := selectAll(ex, x.nav(d, c), 0)
 		x.end(e)
 		if got.Key() != sel.Key() {
 			x.viol("protocol", "protocol:sequence:select", fmt.Sprintf("Select(%s) on the long-lived expression gives %s, fresh gives %s", text, clip(got.Key()), clip(sel.Key())), step)
